@@ -832,6 +832,13 @@ send_response:
 	basicReq.Stat.ResponseStart = time.Now()
 
 	if !isRedirect && res != nil {
+		if cancelOnClientClose && !CheckSupportMultiplex(basicReq.Session.Proto) {
+			// Note: the close watcher in copyResponse() reads from the client conn while
+			// the response is sent. The read deadline armed for reading the request
+			// (TimeoutReadClient) must not be taken for a disconnected client; the
+			// deadline for the next request is set again when this request ends.
+			basicReq.Connection.SetReadDeadline(time.Time{})
+		}
 		err = p.sendResponse(rw, res, resFlushInterval, cancelOnClientClose)
 		if err != nil {
 			// Note: for h2/spdy protocol, not close client conn when send
